@@ -95,7 +95,7 @@ CHECKS = {
         "rule": "case = (profile, data); non-trivial = the report has a result with >=2 traces or a non-empty subResult; distinct by sha1 of the case",
         "assumptions": TRUST + ["fresh-process runs use the harness test binary as the process image"],
         "extra_builds": ["acv"],
-        "units": [unit("determinism", "^TestC06$", 10, 250, timeout=(600, 3300))],
+        "units": [unit("determinism", "^TestC06$", 10, 120, timeout=(900, 3300))],
     },
     "C09": {
         "level": "exploration",
@@ -115,7 +115,7 @@ CHECKS = {
         "level_note": "Errors are compared by text (digit runs masked), not only by presence; half of the schedules run the concurrent phase first on texts the process has never seen. The harness does not own the Go scheduler: interleavings are sampled, not enumerated. The race detector carries this check (it flags unsynchronised access on executed paths regardless of the interleaving that happened); logic races on correctly locked state are caught only if the schedule hits them. Race failures do not shrink (the detector reports a stack pair once per process); the replay re-runs the mix 50 times.",
         "rule": "case = (profiles, documents, per-goroutine operation lists, GOMAXPROCS); non-trivial = >=2 goroutines each compile, or >=2 goroutines use the same compiled profile; distinct by sha1 of the case",
         "assumptions": TRUST + ["Go race detector (happens-before) as the data-race oracle"],
-        "units": [unit("schedules", "^TestC10$", 8, 120, bin="race", gorace=True, timeout=(600, 3300), shrinktime="10s")],
+        "units": [unit("schedules", "^TestC10$", 8, 80, bin="race", gorace=True, timeout=(600, 3300), shrinktime="10s")],
     },
     "C18": {
         "level": "exploration",
@@ -140,7 +140,7 @@ CHECKS = {
         "rule": "case = (profile, graph, optional source maps, serialisation options); non-trivial = >=2 results and (a result with >=2 traces or sub-result depth >=3); distinct by sha1 of the case",
         "assumptions": TRUST,
         "extra_builds": ["acv"],
-        "units": [unit("wellformed", "^TestC12$", 60, 1500)],
+        "units": [unit("wellformed", "^TestC12$", 60, 800)],
     },
     "C14": {
         "level": "exploration",
